@@ -163,7 +163,7 @@ func checkExpr(cx *lib.Ctx, c *evalgen.Case, name string, am, bm cty.Value, mode
 			}
 			w, _, _, _ := twoRun(e, c.Scope, name, am, bm)
 			return w == vLost
-		})
+		}, with(c.Scope, name, am))
 	}
 	mc := &evalgen.Case{Scope: c.Scope, Node: min, Src: c.Src, Expr: c.Expr}
 	sig := "?"
@@ -388,6 +388,90 @@ func withBodyMarks(v cty.Value, body hcl.Body) cty.Value {
 	return v
 }
 
+// explainedByExpression looks for an attribute expression of the body that loses the mark already when it
+// is evaluated on its own (no iterator needed); such a loss is reported at the expression level, with
+// its precise signature, instead of as a decoder-level finding.
+func explainedByExpression(cx *lib.Ctx, b *evalgen.BodyCase, name string, am, bm cty.Value) bool {
+	found := false
+	var walk func(body *lib.Node)
+	walk = func(body *lib.Node) {
+		for _, k := range body.Kids {
+			switch k.K {
+			case "attrdef":
+				if found || k.S == "for_each" || k.S == "labels" || k.S == "iterator" {
+					continue
+				}
+				ok := true
+				for _, v := range evalgen.FreeVars(k.Kids[0]) {
+					if _, in := b.Scope[v]; !in {
+						ok = false
+					}
+				}
+				if !ok {
+					continue
+				}
+				ec := &evalgen.Case{Scope: b.Scope, Node: k.Kids[0]}
+				if !ec.Render() {
+					continue
+				}
+				if w, _, _, _ := twoRun(ec.Expr, ec.Scope, name, am, bm); w == vLost {
+					checkExpr(cx, ec, name, am, bm, "expr")
+					found = true
+				}
+			case "block":
+				walk(k.Kids[len(k.Kids)-1])
+			}
+		}
+	}
+	walk(b.Tree)
+	if found {
+		return true
+	}
+	// second chance: an expansion call f(xs...) anywhere in the body (possibly next to iterator references,
+	// so that the attribute cannot be evaluated on its own) whose expanded argument is a marked, empty
+	// collection in one of the runs
+	var scan func(body *lib.Node)
+	scan = func(body *lib.Node) {
+		for _, k := range body.Kids {
+			switch k.K {
+			case "attrdef":
+				k.Kids[0].Walk(func(x *lib.Node) {
+					if found || x.K != "call" || !x.Flag || len(x.Kids) == 0 {
+						return
+					}
+					arg := x.Kids[len(x.Kids)-1]
+					for _, v := range evalgen.FreeVars(arg) {
+						if _, in := b.Scope[v]; !in {
+							return
+						}
+					}
+					for _, m := range []cty.Value{am, bm} {
+						v, _ := evalgen.EvalNode(arg, with(b.Scope, name, m))
+						if v != cty.NilVal && hasMark(v) {
+							u, _ := v.UnmarkDeep()
+							if u.IsKnown() && !u.IsNull() && u.CanIterateElements() && u.LengthInt() == 0 {
+								found = true
+							}
+						}
+					}
+				})
+			case "block":
+				scan(k.Kids[len(k.Kids)-1])
+			}
+		}
+	}
+	scan(b.Tree)
+	if found {
+		cx.Res.Fail(lib.Failure{
+			Kind:  "oracle",
+			Key:   "mark-lost:call-expansion:empty-marked-collection",
+			Desc:  "decoding: an attribute holds a call f(xs...) whose expanded argument is a marked, empty collection in one run; the result of that run does not carry the mark of " + name,
+			Input: b.Encode("C06", "body", extra{Var: name, A: evalgen.EncodeValue(am), B: evalgen.EncodeValue(bm)}),
+		})
+	}
+	return found
+}
+
 func itemByName(items []evalgen.SpecItem, name string) (evalgen.SpecItem, bool) {
 	for _, it := range items {
 		if it.Name == name {
@@ -442,24 +526,8 @@ func checkBody(cx *lib.Ctx, b *evalgen.BodyCase, name string, am, bm cty.Value, 
 		case "item":
 			it, _ := itemByName(b.Items, strings.SplitN(k, ":", 2)[1])
 			itemLost = true
-			if it.Kind == "attr" && b.Tree != nil {
-				// a top-level attribute: if its expression alone already loses the mark, report that (with the
-				// precise expression-level signature) instead of a decoder-level finding
-				reported := false
-				for _, kid := range b.Tree.Kids {
-					if kid.K == "attrdef" && kid.S == it.Name {
-						ec := &evalgen.Case{Scope: b.Scope, Node: kid.Kids[0]}
-						if ec.Render() {
-							if w, _, _, _ := twoRun(ec.Expr, ec.Scope, name, am, bm); w == vLost {
-								checkExpr(cx, ec, name, am, bm, "expr")
-								reported = true
-							}
-						}
-					}
-				}
-				if reported {
-					continue
-				}
+			if b.Tree != nil && !zeroBlocks(a, bb) && explainedByExpression(cx, b, name, am, bm) {
+				continue
 			}
 			key := "mark-lost:hcldec:" + it.Kind
 			if zeroBlocks(a, bb) {
@@ -469,21 +537,37 @@ func checkBody(cx *lib.Ctx, b *evalgen.BodyCase, name string, am, bm cty.Value, 
 			}
 			losts = append(losts, lost{k, key, impl})
 		case "staged-remain":
+			if b.Tree != nil && !zeroBlocks(a, bb) && explainedByExpression(cx, b, name, am, bm) {
+				continue
+			}
 			key := "mark-lost:dynblock-partialcontent-remain"
 			if zeroBlocks(a, bb) {
 				key = "mark-lost:dynblock-zero-blocks:staged-remain"
+			} else if markedNull(am) || markedNull(bm) {
+				key = "mark-lost:hcldec:marked-null"
 			}
 			losts = append(losts, lost{k, key, impl})
 		case "staged-first":
+			if b.Tree != nil && !zeroBlocks(a, bb) && explainedByExpression(cx, b, name, am, bm) {
+				continue
+			}
 			key := "mark-lost:staged-partial-decode"
 			if zeroBlocks(a, bb) {
 				key = "mark-lost:dynblock-zero-blocks:staged-first"
+			} else if markedNull(am) || markedNull(bm) {
+				key = "mark-lost:hcldec:marked-null"
 			}
 			losts = append(losts, lost{k, key, impl})
 		case "whole":
+			if b.Tree != nil && !zeroBlocks(a, bb) && explainedByExpression(cx, b, name, am, bm) {
+				itemLost = true
+				continue
+			}
 			key := "mark-lost:hcldec:whole-body"
 			if zeroBlocks(a, bb) {
 				key = "mark-lost:dynblock-zero-blocks:whole-body"
+			} else if markedNull(am) || markedNull(bm) {
+				key = "mark-lost:hcldec:marked-null"
 			}
 			losts = append(losts, lost{k, key, impl})
 		}
